@@ -174,4 +174,28 @@ theorem clean_Mdy (m : Nat) (dd w yy tm : List Char) (hms us : Int) (hd : IsNume
     | cons c cs => exact ⟨c, cs, rfl⟩
   rw [squeezeGo_plain_run w _ hw.plain, squeezeGo_blank_plain d0 ds _ hd.plain, squeezeGo_blank_plain y0 ys _ hy.plain, ht.squeeze_id]
 
+/-- `yyyy-mm-dd[ time]`: unchanged by `strip` and `squeeze` -/
+theorem clean_iso (yy mm dd tm : List Char) (hms us : Int) (hy : IsNumeral 4 yy) (hm : IsNumeral 2 mm) (hd : IsNumeral 2 dd)
+    (ht : TimeText tm hms us) :
+    squeeze (strip (yy ++ '-' :: (mm ++ '-' :: (dd ++ tm)))) = yy ++ '-' :: (mm ++ '-' :: (dd ++ tm)) := by
+  have hst : strip (yy ++ '-' :: (mm ++ '-' :: (dd ++ tm))) = yy ++ '-' :: (mm ++ '-' :: (dd ++ tm)) := by
+    apply strip_ends
+    · intro c hc
+      cases yy with
+      | nil => exact absurd rfl hy.1
+      | cons d0 ds => simp only [List.cons_append, List.head?_cons, Option.some.injEq] at hc; subst hc; exact notWs_of_digit _ (hy.2.2 _ (by simp))
+    · intro c hc
+      have e : yy ++ '-' :: (mm ++ '-' :: (dd ++ tm)) = (yy ++ '-' :: (mm ++ ['-']) ++ dd) ++ tm := by simp
+      rw [e] at hc
+      exact notWs_of_digit c (ht.last_digit _ (hd.last_digit _) c hc)
+  rw [hst]; unfold squeeze
+  obtain ⟨m0, ms, rfl⟩ : ∃ c cs, mm = c :: cs := by
+    cases mm with
+    | nil => exact absurd rfl hm.1
+    | cons c cs => exact ⟨c, cs, rfl⟩
+  obtain ⟨d0, ds, rfl⟩ : ∃ c cs, dd = c :: cs := by
+    cases dd with
+    | nil => exact absurd rfl hd.1
+    | cons c cs => exact ⟨c, cs, rfl⟩
+  rw [squeezeGo_plain_run yy _ hy.plain, squeezeGo_dash_plain m0 ms _ hm.plain, squeezeGo_dash_plain d0 ds _ hd.plain, ht.squeeze_id]
 end Pyg.DateParse
